@@ -4,6 +4,7 @@ package main
 // raw comparison of the six custom stores and lock-step continuation on a shadow replica.
 
 import (
+	"github.com/SaoNetwork/sao/verifrt"
 	"encoding/json"
 	"fmt"
 	"sort"
@@ -19,6 +20,7 @@ type shadow struct {
 	since  int64
 	dead   bool
 	ignore map[string]bool
+	globals map[string]any // the shadow process's package-level variables
 }
 
 func describeKey(store, k string) string {
@@ -140,6 +142,17 @@ func (e *Env) Regen(follow int) {
 		e.Violate("C18", "C18.validate", "regen", "export-does-not-validate", "exported genesis fails validation: "+trunc(err.Error(), 200))
 		return
 	}
+	// the re-initialised chain is a new process: it starts with fresh package-level variables and
+	// keeps its own copy of them from here on
+	obsGlobals := verifrt.SaveGlobals()
+	verifrt.ResetGlobals()
+	var shadowGlobals map[string]any
+	defer func() {
+		if e.Shadow != nil {
+			e.Shadow.globals = shadowGlobals
+		}
+		verifrt.LoadGlobals(obsGlobals)
+	}()
 	b := NewReplica("regen")
 	b.FuelBudget = e.R.FuelBudget
 	var vals []abci.ValidatorUpdate
@@ -170,6 +183,7 @@ func (e *Env) Regen(follow int) {
 		return
 	}
 	_ = res
+	shadowGlobals = verifrt.SaveGlobals()
 	// compare raw custom stores and module balances
 	actx := e.R.CommittedCtx(e.headerNow())
 	bctx := b.App.BaseApp.NewContext(false, e.headerNow())
@@ -226,6 +240,12 @@ func (e *Env) shadowBlock(b *Block, codes []uint32) {
 	if sh == nil || sh.dead {
 		return
 	}
+	obsGlobals := verifrt.SaveGlobals()
+	verifrt.LoadGlobals(sh.globals)
+	defer func() {
+		sh.globals = verifrt.SaveGlobals()
+		verifrt.LoadGlobals(obsGlobals)
+	}()
 	fail := func(where string, pi *PanicInfo) {
 		sh.dead = true
 		e.Violate("C18", "C18.cont", "regen", "shadow-panic:"+where, fmt.Sprintf("the re-initialised chain panics in %s at height %d where the original does not: %s (%s)", where, b.Height, pi.Value, pi.Stack))
